@@ -50,22 +50,17 @@ contract(
     name="complete",
     **COMMON,
     requires=[KEY_OF_NAME],
+    # `markAnchorNames` as a set OBJECT (contracts/c06sets.py): `S.update(<generator>)` adds the element of every passing position
+    globals={"set": NAMESET_CTOR},
+    modifies=[NAMESET + ".elems"],  # (the local set object)
     ensures={
         "every-matching-anchor-pairs": f"all(all(implies(not {_at('a', 'b')}.isMark and {_some_mark_named(chr(39) + '_' + chr(39) + ' + ' + _at('a', 'b') + '.key')},"
         f" {_at('a', 'b')}.name in result and result[{_at('a', 'b')}.name] == '_' + {_at('a', 'b')}.key) for b in range(len({AL}[{KEYS}[a]]))) for a in range(len({KEYS})))",
     },
     canaries={"empty": "len(result) == 0"},
-    locals={**LOCALS, "m0": Set(STR), "mprev": Set(STR)},
-    # m0 / mprev: ghost snapshots of markAnchorNames (m0 == the set at every head of loop 1, mprev == the set before the update of this
-    # iteration); the effect of the one `update` statement is stated as two small hints, proved there
-    ghost_vars={"m0": (Set(STR), "set()"), "mprev": (Set(STR), "set()")},
-    ghost={UPD: ["mprev = m0", "m0 = markAnchorNames"]},
-    hints={UPD: [
-        "all(n in markAnchorNames for n in mprev)",
-        "all(implies(anchors[b].isMark, anchors[b].name in markAnchorNames) for b in range(len(anchors)))",
-    ]},
+    locals={"markAnchorNames": Ref(NAMESET), "anchorPairs": Dict(STR, STR)},
     loops={
-        LOOP1: Loop(index="i1", invariants={"snapshot": "m0 == markAnchorNames", "m-complete": _m_complete("i1")}),
+        LOOP1: Loop(index="i1", invariants={"m-complete": _m_complete("i1")}),
         LOOP2: Loop(index="i2", invariants={"complete": _p_complete("i2")}),
         INNER: Loop(index="j", invariants={
             "complete": _p_complete("i2"),
